@@ -153,6 +153,10 @@ def gen_spec(rng, profile=None, uid=None):
         for c in d["copies"][1:]:
             c["guards"] = [dict(g) for g in first["guards"]]
             c["validators"] = list(first["validators"])
+    used_g = {g["name"] for t in trans for g in t["guards"]}
+    used_v = {v for t in trans for v in t["validators"]}
+    guards = {k: v for k, v in guards.items() if k in used_g}
+    validators = {k: v for k, v in validators.items() if k in used_v}
     amode = P["async_mode"]
 
     def is_async():
